@@ -154,6 +154,8 @@ class DiffEqSolver:
         rFactor = np.vectorize(rFactor)
         ddThetaFactor = np.vectorize(ddThetaFactor)
         rhoFactor = np.vectorize(rhoFactor)
+        # Also needed when the right hand side is given as a function
+        self._rhoFactor = rhoFactor
 
         # Calculate the number of points required for the Gauss-Legendre
         # quadrature
@@ -443,6 +445,7 @@ class DiffEqSolver:
                 self._evalPts.flatten(), self._evalRes)
             rhoVec[j] = np.sum(np.tile(self._weights, len(self._evalPts))*self._multFactor
                                * self._evalRes * self._evalPts.flatten()
+                               * self._rhoFactor(self._evalPts.flatten())
                                * rho(self._evalPts.flatten()))
 
         for j, z in phi.getCoords(1):
